@@ -176,4 +176,332 @@ theorem playout_unmarshal (r : PlayoutDelay) (raw : Bytes) :
     · apply u16_ext; rw [playout_min_toNat]; simp; omega
     · apply u16_ext; rw [playout_max_toNat]; simp; omega
 
+/-! ### AbsSendTime -/
+
+/-- the three bytes AbsSendTime.Marshal writes, as numbers -/
+theorem absSend_bytes (t : UInt64) :
+    (((t &&& 0xFF0000) >>> 16).toUInt8).toNat = t.toNat / 65536 % 256 ∧
+    (((t &&& 0xFF00) >>> 8).toUInt8).toNat = t.toNat / 256 % 256 ∧
+    ((t &&& 0xFF).toUInt8).toNat = t.toNat % 256 := by
+  refine ⟨?_, ?_, ?_⟩
+  · rw [UInt64.toNat_toUInt8, UInt64.toNat_shiftRight, UInt64.toNat_and,
+      show (0xFF0000 : UInt64).toNat = (2 ^ 8 - 1) <<< 16 by decide, show (16 : UInt64).toNat % 64 = 16 by decide,
+      Bits.nat_and_shl_shr]
+    omega
+  · rw [UInt64.toNat_toUInt8, UInt64.toNat_shiftRight, UInt64.toNat_and,
+      show (0xFF00 : UInt64).toNat = (2 ^ 8 - 1) <<< 8 by decide, show (8 : UInt64).toNat % 64 = 8 by decide,
+      Bits.nat_and_shl_shr]
+    omega
+  · rw [UInt64.toNat_toUInt8, UInt64.toNat_and, show (0xFF : UInt64).toNat = 2 ^ 8 - 1 by decide, Bits.nat_and_mask]
+    omega
+
+/-- the 24-bit value AbsSendTime.Unmarshal assembles -/
+theorem absSend_rd_toNat (a b c : UInt8) :
+    ((a.toUInt64 <<< 16) ||| (b.toUInt64 <<< 8) ||| c.toUInt64).toNat = a.toNat * 65536 + b.toNat * 256 + c.toNat := by
+  have ha := a.toNat_lt; have hb := b.toNat_lt; have hc := c.toNat_lt
+  simp only [UInt64.toNat_or, UInt64.toNat_shiftLeft, UInt8.toNat_toUInt64,
+    show (16 : UInt64).toNat % 64 = 16 by decide, show (8 : UInt64).toNat % 64 = 8 by decide, Nat.shiftLeft_eq]
+  rw [Nat.mod_eq_of_lt (by omega), Nat.mod_eq_of_lt (by omega), Nat.or_assoc,
+    mul_or b.toNat c.toNat 8 (by omega), mul_or a.toNat _ 16 (by omega)]
+  omega
+
+theorem absSend_marshal (v prev : AbsSendTime) : marshalOk absSendSpec v (modelM absSend v prev) = true := by
+  obtain ⟨t⟩ := v
+  obtain ⟨p1, p2, p3⟩ := absSend_bytes t
+  have hm : absSendMarshal ⟨t⟩ =
+      .ok [((t &&& 0xFF0000) >>> 16).toUInt8, ((t &&& 0xFF00) >>> 8).toUInt8, (t &&& 0xFF).toUInt8] := rfl
+  generalize ((t &&& 0xFF0000) >>> 16).toUInt8 = x at hm p1
+  generalize ((t &&& 0xFF00) >>> 8).toUInt8 = y at hm p2
+  generalize (t &&& 0xFF).toUInt8 = z at hm p3
+  have ht := t.toNat_lt
+  simp only [marshalOk, absSendSpec, modelM, absSend, hm, absSendUnmarshal, Res.coarse, render, absSendTime, width, pack, bytesBE]
+  simp
+  refine ⟨⟨?_, ?_, ?_⟩, ?_⟩
+  · apply u8_ext; simp; omega
+  · apply u8_ext; simp; omega
+  · apply u8_ext; simp; omega
+  · by_cases h : 16777216 ≤ t
+    · exact Or.inl h
+    · right
+      have h' : t.toNat < 16777216 := by
+        have := UInt64.not_le.mp h; have := UInt64.lt_iff_toNat_lt.mp this; simpa using this
+      apply u64_ext; rw [absSend_rd_toNat]; omega
+
+theorem absSend_unmarshal (r : AbsSendTime) (raw : Bytes) :
+    unmarshalOk absSendSpec raw ⟨(absSendUnmarshal r raw).res.coarse, (absSendUnmarshal r raw).st⟩ = true := by
+  match raw with
+  | [] => simp [unmarshalOk, absSendSpec, absSendUnmarshal, Res.coarse, Res.isErr]
+  | [a] => simp [unmarshalOk, absSendSpec, absSendUnmarshal, Res.coarse, Res.isErr]
+  | [a, b] => simp [unmarshalOk, absSendSpec, absSendUnmarshal, Res.coarse, Res.isErr]
+  | a :: b :: c :: rest =>
+    have hl : ¬ (rest.length + 1 + 1 + 1 < 3) := by omega
+    have ha := a.toNat_lt; have hb := b.toNat_lt; have hc := c.toNat_lt
+    simp [unmarshalOk, absSendSpec, absSendUnmarshal, parse, split, natBE, Res.coarse, hl]
+    apply u64_ext; rw [absSend_rd_toNat]; simp; omega
+
+/-! ### AbsCaptureTime -/
+
+theorem int64_toInt (x : Int64) : x.toInt = signed64 x.toUInt64.toNat := by
+  rw [← Int64.toInt_toBitVec, BitVec.toInt_eq_toNat_cond]
+  have : x.toBitVec.toNat = x.toUInt64.toNat := rfl
+  rw [this]; unfold signed64
+  have h := x.toUInt64.toNat_lt
+  split <;> split <;> omega
+
+theorem toInt64_eq (u : UInt64) : Int64.ofInt (signed64 u.toNat) = u.toInt64 := by
+  have := int64_toInt u.toInt64
+  rw [UInt64.toUInt64_toInt64] at this
+  rw [← this, Int64.ofInt_toInt]
+
+theorem int64_mod (x : Int64) : (x.toInt % 2 ^ 64).toNat = x.toUInt64.toNat := by
+  rw [int64_toInt]; unfold signed64
+  have h := x.toUInt64.toNat_lt
+  split <;> omega
+
+theorem bytesBE_length (k n : Nat) : (bytesBE k n).length = k := by
+  induction k with
+  | zero => rfl
+  | succ k ih => simp [bytesBE, ih]
+
+theorem natBE_bytesBE (k n : Nat) : natBE (bytesBE k n) = n % 256 ^ k := by
+  induction k with
+  | zero => simp [bytesBE, natBE, Nat.mod_one]
+  | succ k ih =>
+    simp only [bytesBE, natBE, bytesBE_length, ih, Nat.toUInt8, UInt8.toNat_ofNat']
+    rw [show (2 : Nat) ^ 8 = 256 from rfl, Nat.mod_mod,
+      show n % 256 ^ (k + 1) = n % 256 ^ k + 256 ^ k * (n / 256 ^ k % 256) from Nat.mod_pow_succ,
+      Nat.mul_comm, Nat.add_comm]
+
+/-- reading back what `be64` wrote -/
+theorem rd64_be64 (x : UInt64) :
+    rd64 (x >>> 56).toUInt8 (x >>> 48).toUInt8 (x >>> 40).toUInt8 (x >>> 32).toUInt8
+      (x >>> 24).toUInt8 (x >>> 16).toUInt8 (x >>> 8).toUInt8 x.toUInt8 = x := by
+  apply u64_ext
+  rw [rd64_toNat]
+  have := be64_eq x
+  simp only [be64] at this
+  rw [this, natBE_bytesBE, Nat.mod_eq_of_lt x.toNat_lt]
+
+theorem bytesBE_shift (k a b : Nat) : bytesBE k (a * 256 ^ k + b) = bytesBE k b := by
+  induction k generalizing a with
+  | zero => rfl
+  | succ k ih =>
+    have e : a * 256 ^ (k + 1) + b = (a * 256) * 256 ^ k + b := by rw [Nat.pow_succ, Nat.mul_assoc, Nat.mul_comm 256]
+    simp only [bytesBE]
+    rw [e, ih]
+    congr 2
+    rw [Nat.mul_comm (a * 256), Nat.mul_add_div (Nat.pow_pos (by decide)), Nat.mul_comm a, Nat.mul_add_mod]
+
+theorem bytesBE_append (j k a b : Nat) (hb : b < 256 ^ k) :
+    bytesBE (j + k) (a * 256 ^ k + b) = bytesBE j a ++ bytesBE k b := by
+  induction j with
+  | zero => simp only [Nat.zero_add, bytesBE, List.nil_append]; exact bytesBE_shift k a b
+  | succ j ih =>
+    rw [show j + 1 + k = (j + k) + 1 by omega]
+    simp only [bytesBE, List.cons_append]
+    rw [ih]
+    congr 2
+    rw [Nat.add_comm j k, Nat.pow_add, ← Nat.div_div_eq_div_mul, Nat.mul_comm a, Nat.mul_add_div (Nat.pow_pos (by decide)),
+      Nat.div_eq_of_lt hb, Nat.add_zero]
+
+
+theorem absCaptureUnmarshal_be64 (prev : AbsCaptureTime) (ts : UInt64) :
+    absCaptureUnmarshal prev (be64 ts) = ⟨.ok (), ⟨ts, none⟩⟩ := by
+  simp only [be64, absCaptureUnmarshal, rd64_be64]
+
+theorem absCaptureUnmarshal_be64_be64 (prev : AbsCaptureTime) (ts o : UInt64) :
+    absCaptureUnmarshal prev (be64 ts ++ be64 o) = ⟨.ok (), ⟨ts, some o.toInt64⟩⟩ := by
+  simp only [be64, absCaptureUnmarshal, List.cons_append, List.nil_append, rd64_be64]
+
+theorem absCapture_marshal (v prev : AbsCaptureTime) :
+    marshalOk absCaptureSpec v (modelM absCapture v prev) = true := by
+  obtain ⟨ts, off⟩ := v
+  have hts := ts.toNat_lt
+  cases off with
+  | none =>
+    simp only [marshalOk, absCaptureSpec, modelM, absCapture, absCaptureMarshal, absCaptureUnmarshal_be64, Res.coarse,
+      render, absCaptureTime, Option.map, width, pack]
+    simp [be64_eq, Nat.mod_eq_of_lt hts]
+  | some o =>
+    have ho := o.toUInt64.toNat_lt
+    simp only [marshalOk, absCaptureSpec, modelM, absCapture, absCaptureMarshal, absCaptureUnmarshal_be64_be64, Res.coarse,
+      render, absCaptureTime, Option.map, width, pack, Int64.toInt64_toUInt64, int64_mod]
+    have e : ts.toNat % 2 ^ 64 * 2 ^ (64 + 0) + (o.toUInt64.toNat % 2 ^ 64 * 2 ^ 0 + 0) = ts.toNat * 256 ^ 8 + o.toUInt64.toNat := by
+      omega
+    rw [e, show (64 + (64 + 0)) / 8 = 8 + 8 from rfl, bytesBE_append 8 8 _ _ (by omega)]
+    simp [be64_eq]
+
+theorem natBE8_lt (a b c d e f g h : UInt8) : natBE [a, b, c, d, e, f, g, h] < 2 ^ 64 := by
+  rw [← rd64_toNat]; exact UInt64.toNat_lt _
+
+theorem natBE8_mod (a b c d e f g h : UInt8) :
+    natBE [a, b, c, d, e, f, g, h] % 18446744073709551616 = natBE [a, b, c, d, e, f, g, h] :=
+  Nat.mod_eq_of_lt (natBE8_lt a b c d e f g h)
+
+theorem natBE_append (xs ys : Bytes) : natBE (xs ++ ys) = natBE xs * 256 ^ ys.length + natBE ys := by
+  induction xs with
+  | nil => simp [natBE]
+  | cons x xs ih =>
+    simp only [List.cons_append, natBE, ih, List.length_append, Nat.pow_add]
+    rw [Nat.add_mul, Nat.mul_assoc, Nat.add_assoc]
+
+theorem u64_of_natBE (a b c d e f g h : UInt8) :
+    rd64 a b c d e f g h = UInt64.ofNat (natBE [a, b, c, d, e, f, g, h]) := by
+  apply u64_ext
+  rw [rd64_toNat, UInt64.toNat_ofNat', Nat.mod_eq_of_lt (natBE8_lt a b c d e f g h)]
+
+theorem int64_ofNat_signed (n : Nat) (h : n < 2 ^ 64) : Int64.ofNat n = Int64.ofInt (signed64 n) := by
+  have := toInt64_eq (UInt64.ofNat n)
+  rw [UInt64.toNat_ofNat', Nat.mod_eq_of_lt h] at this
+  rw [this]
+  simp
+
+theorem absCapture_unmarshal (r : AbsCaptureTime) (raw : Bytes) :
+    unmarshalOk absCaptureSpec raw ⟨(absCaptureUnmarshal r raw).res.coarse, (absCaptureUnmarshal r raw).st⟩ = true := by
+  rcases raw with _ | ⟨a, _ | ⟨b, _ | ⟨c, _ | ⟨d, _ | ⟨e, _ | ⟨f, _ | ⟨g, _ | ⟨h, rest⟩⟩⟩⟩⟩⟩⟩⟩
+  case cons.cons.cons.cons.cons.cons.cons.cons =>
+    rcases rest with _ | ⟨a', _ | ⟨b', _ | ⟨c', _ | ⟨d', _ | ⟨e', _ | ⟨f', _ | ⟨g', _ | ⟨h', rest⟩⟩⟩⟩⟩⟩⟩⟩
+    case cons.cons.cons.cons.cons.cons.cons.cons =>
+      have hl1 : ¬ (rest.length + 1 + 1 + 1 + 1 + 1 + 1 + 1 + 1 + 1 + 1 + 1 + 1 + 1 + 1 + 1 + 1 < 8) := by omega
+      have hl2 : ¬ (rest.length + 1 + 1 + 1 + 1 + 1 + 1 + 1 + 1 + 1 + 1 + 1 + 1 + 1 + 1 + 1 + 1 < 16) := by omega
+      have hs : natBE [a, b, c, d, e, f, g, h, a', b', c', d', e', f', g', h'] =
+          natBE [a, b, c, d, e, f, g, h] * 18446744073709551616 + natBE [a', b', c', d', e', f', g', h'] := by
+        have := natBE_append [a, b, c, d, e, f, g, h] [a', b', c', d', e', f', g', h']
+        simpa using this
+      have h1 := natBE8_lt a b c d e f g h
+      have h2 := natBE8_lt a' b' c' d' e' f' g' h'
+      simp [unmarshalOk, absCaptureSpec, absCaptureUnmarshal, Res.coarse, parse, split, hl1, hl2, hs, u64_of_natBE]
+      refine ⟨?_, ?_⟩
+      · apply congrArg UInt64.ofNat; omega
+      · rw [natBE8_mod]; exact int64_ofNat_signed _ h2
+    all_goals
+      simp [unmarshalOk, absCaptureSpec, absCaptureUnmarshal, Res.coarse, parse, split, u64_of_natBE, natBE8_mod]
+  all_goals simp [unmarshalOk, absCaptureSpec, absCaptureUnmarshal, Res.coarse, Res.isErr]
+
+/-! ### what the two predicates say, spelled out (generic in the codec) -/
+
+theorem coarse_ok_unit {r : Res Unit} (h : r.coarse = .ok ()) : r = .ok () := by
+  cases r <;> simp_all [Res.coarse]
+
+theorem coarse_isErr {α} {r : Res α} (h : r.coarse.isErr = true) : r.isErr = true := by
+  cases r <;> simp_all [Res.coarse, Res.isErr]
+
+/-- both main theorems of one codec -/
+structure Verified {σ : Type} [DecidableEq σ] (c : Codec σ) (S : ExtSpec σ) : Prop where
+  m : ∀ v prev, marshalOk S v (modelM c v prev) = true
+  u : ∀ prev hist raw, unmarshalOk S raw (modelU c prev hist raw) = true
+
+variable {σ : Type} [DecidableEq σ] {c : Codec σ} {S : ExtSpec σ}
+
+/-- input of at least the fixed size: accepted, and the receiver afterwards holds exactly the specified
+    fields of the input — whatever it held before -/
+theorem Verified.decodes (V : Verified c S) (r : σ) (raw : Bytes) (v : σ) (hd : S.decode raw = some v) :
+    c.unmarshal r raw = ⟨.ok (), v⟩ := by
+  have h := V.u r [] raw
+  simp only [unmarshalOk, modelU, Codec.history, hd, Bool.and_eq_true, beq_iff_eq] at h
+  obtain ⟨h1, h2⟩ := h
+  have := coarse_ok_unit h1
+  cases hu : c.unmarshal r raw with
+  | mk res st => simp_all
+
+/-- shorter input: rejected with an error (not a panic) -/
+theorem Verified.rejects_short (V : Verified c S) (r : σ) (raw : Bytes) (hd : S.decode raw = none) :
+    (c.unmarshal r raw).res.isErr = true := by
+  have h := V.u r [] raw
+  simp only [unmarshalOk, modelU, Codec.history, hd] at h
+  exact coarse_isErr h
+
+/-- Unmarshal never panics -/
+theorem Verified.unmarshal_total (V : Verified c S) (r : σ) (raw : Bytes) : (c.unmarshal r raw).res ≠ .panic := by
+  cases hd : S.decode raw with
+  | none => have := V.rejects_short r raw hd; intro h; simp [h, Res.isErr] at this
+  | some v => rw [V.decodes r raw v hd]; simp
+
+/-- in-range value: Marshal emits exactly the specification's layout -/
+theorem Verified.layout (V : Verified c S) (v : σ) (hr : S.inRange v = true) :
+    c.marshal v = .ok (render (S.layout v)) := by
+  have h := V.m v v
+  simp only [marshalOk, modelM, hr, if_true, Bool.and_eq_true, beq_iff_eq] at h
+  obtain ⟨h1, _⟩ := h
+  cases hm : c.marshal v <;> simp_all [Res.coarse]
+
+/-- out-of-range value: Marshal returns an error -/
+theorem Verified.rejects_range (V : Verified c S) (v : σ) (hr : S.inRange v = false) :
+    (c.marshal v).isErr = true := by
+  have h := V.m v v
+  simp only [marshalOk, modelM, hr] at h
+  exact coarse_isErr (by simpa using h)
+
+/-- Unmarshal after Marshal is the identity, into any receiver -/
+theorem Verified.roundtrip (V : Verified c S) (v r : σ) (hr : S.inRange v = true) (he : S.exact v = true) :
+    c.unmarshal r (render (S.layout v)) = ⟨.ok (), v⟩ := by
+  have h := V.m v r
+  have hl := V.layout v hr
+  simp only [marshalOk, modelM, hr, he, hl, if_true, Bool.and_eq_true, beq_iff_eq, Res.coarse, Bool.not_true,
+    Bool.false_or] at h
+  obtain ⟨_, h1, h2⟩ := h
+  have := coarse_ok_unit h1
+  cases hu : c.unmarshal r (render (S.layout v)) with
+  | mk res st => simp_all
+
+/-! ### facts about the specification's decoders: which inputs they reject, and that they read a prefix only -/
+
+theorem audio_decode_none (raw : Bytes) : audioSpec.decode raw = none ↔ raw.length < 1 := by
+  simp only [audioSpec, parse, split]
+  split <;> simp_all
+
+theorem tcc_decode_none (raw : Bytes) : tccSpec.decode raw = none ↔ raw.length < 2 := by
+  simp only [tccSpec, parse, split]
+  split <;> simp_all
+
+theorem playout_decode_none (raw : Bytes) : playoutSpec.decode raw = none ↔ raw.length < 3 := by
+  simp only [playoutSpec, parse, split]
+  split <;> simp_all
+
+theorem absSend_decode_none (raw : Bytes) : absSendSpec.decode raw = none ↔ raw.length < 3 := by
+  simp only [absSendSpec, parse, split]
+  split <;> simp_all
+
+theorem absCapture_decode_none (raw : Bytes) : absCaptureSpec.decode raw = none ↔ raw.length < 8 := by
+  simp only [absCaptureSpec, parse, split]
+  split
+  · simp_all
+  · split <;> simp_all
+
+theorem audio_decode_take (raw : Bytes) (h : 1 ≤ raw.length) : audioSpec.decode raw = audioSpec.decode (raw.take 1) := by
+  have h1 : raw ≠ [] := by intro h'; simp [h'] at h
+  simp [audioSpec, parse, List.take_take, h1]
+
+theorem tcc_decode_take (raw : Bytes) (h : 2 ≤ raw.length) : tccSpec.decode raw = tccSpec.decode (raw.take 2) := by
+  have h1 : ¬ raw.length < 2 := by omega
+  have h2 : ¬ min 2 raw.length < 2 := by omega
+  simp [tccSpec, parse, List.take_take, List.length_take, h1, h2]
+
+theorem playout_decode_take (raw : Bytes) (h : 3 ≤ raw.length) :
+    playoutSpec.decode raw = playoutSpec.decode (raw.take 3) := by
+  have h1 : ¬ raw.length < 3 := by omega
+  have h2 : ¬ min 3 raw.length < 3 := by omega
+  simp [playoutSpec, parse, List.take_take, List.length_take, h1, h2]
+
+theorem absSend_decode_take (raw : Bytes) (h : 3 ≤ raw.length) :
+    absSendSpec.decode raw = absSendSpec.decode (raw.take 3) := by
+  have h1 : ¬ raw.length < 3 := by omega
+  have h2 : ¬ min 3 raw.length < 3 := by omega
+  simp [absSendSpec, parse, List.take_take, List.length_take, h1, h2]
+
+theorem absCapture_decode_take16 (raw : Bytes) (h : 16 ≤ raw.length) :
+    absCaptureSpec.decode raw = absCaptureSpec.decode (raw.take 16) := by
+  have h1 : ¬ raw.length < 8 := by omega
+  have h2 : ¬ raw.length < 16 := by omega
+  have h3 : ¬ min 16 raw.length < 8 := by omega
+  have h4 : ¬ min 16 raw.length < 16 := by omega
+  simp [absCaptureSpec, parse, List.take_take, List.length_take, h1, h2, h3, h4]
+
+theorem absCapture_decode_take8 (raw : Bytes) (h : 8 ≤ raw.length) (h' : raw.length < 16) :
+    absCaptureSpec.decode raw = absCaptureSpec.decode (raw.take 8) := by
+  have h1 : ¬ raw.length < 8 := by omega
+  have h3 : ¬ min 8 raw.length < 8 := by omega
+  have h4 : min 8 raw.length < 16 := by omega
+  simp [absCaptureSpec, parse, List.take_take, List.length_take, h1, h', h3, h4]
+
 end Rtp.Proofs.Ext
